@@ -177,7 +177,11 @@ func (p *Pool) runOne(wi int, job any) Result {
 			}
 			p.workers[wi] = w
 		}
-		_ = w.logF.Truncate(0)
+		// the log is kept across jobs (a goroutine left behind by an earlier Core may be what kills the process);
+		// it is cut only when it is large and the worker has just answered, i.e. is known to be alive
+		if st, e := w.logF.Stat(); e == nil && st.Size() > 16<<20 {
+			_ = w.logF.Truncate(0)
+		}
 		_, err = w.in.Write(append(buf, '\n'))
 		var line []byte
 		if err == nil {
@@ -186,7 +190,7 @@ func (p *Pool) runOne(wi int, job any) Result {
 		if err != nil {
 			// the worker died on this job
 			_ = w.cmd.Wait()
-			tail := p.logTail(wi, 3000)
+			tail := p.logTail(wi, 6000)
 			st := ""
 			if w.cmd.ProcessState != nil {
 				st = w.cmd.ProcessState.String()
